@@ -102,6 +102,15 @@ void success_case(Tape& t, Stats& st, std::vector<InFile> fs, bool sample) {
 		if (got != want) { size_t at = 0; while (at < got.size() && at < want.size() && got[at] == want[at]) ++at; V_CHECK(false, "archive bytes differ from the independent encoding of the same members at offset " << at << " (file " << got.size() << " bytes, expected " << want.size() << (pre ? "; the output existed before" : "") << ")"); }
 	}
 	verify_archive(out, fs, t, st);
+	{ // a session of up to 12 calls in tape-chosen order on ONE archive object, refused calls included (see vol_common.h)
+		unsigned steps = unsigned(t.below(13));
+		if (steps && !fs.empty()) {
+			std::vector<std::string> names; std::vector<std::vector<uint8_t>> streams; for (size_t i : expected_order(fs)) { names.push_back(fs[i].name); streams.push_back(fs[i].content); }
+			VolFile v(out);
+			Session<VolFile> se{v, names, streams, [&](size_t i, const std::string& p) { V_CHECK(slurp(p) == streams[i], "session: extraction of member " << i << " " << jstr(names[i]) << " wrote other bytes than the input file"); }, {}, {}, {}};
+			se.run(t, st, steps);
+		}
+	}
 	size_t tbl = 0; bool nonempty = false;
 	for (auto& f : fs) { tbl += f.name.size() + 1; st.cls("size_mod4:" + std::to_string(f.content.size() % 4)); if (!f.content.empty()) nonempty = true; if (f.content.size() >= 131071) st.cls("chunk_boundary_size"); }
 	st.cls("table_mod4:" + std::to_string(tbl % 4));
@@ -237,6 +246,23 @@ void run_sweep(Stats& st) {
 			fs.push_back(f);
 		}
 		for (int v = 0; v < 2; ++v) { tp[0] = uint8_t(v * 3); Tape t(tp); success_case(t, st, fs, false); }
+	}
+	// every session of three calls over {extract, extract onto a directory, stream, stream kept open} x three members (sizes 5, 8 and 0: the
+	// second is a multiple of four, so the block after it follows without padding) on one archive object, plus a closing pass over all members
+	{
+		std::vector<InFile> fs(3); fs[0].name = "a.bin"; fs[0].content = {1, 2, 3, 4, 5}; fs[1].name = "B.bin"; fs[1].content = {9, 8, 7, 6, 5, 4, 3, 2}; fs[2].name = "c"; fs[2].dir = "%d0/";
+		bool built = false; std::string out = "%o/sess.vol"; std::vector<std::string> names; std::vector<std::vector<uint8_t>> streams;
+		typedef Session<VolFile> S; const unsigned ops[] = {S::ExtractGood, S::ExtractOntoDirectory, S::StreamWhole, S::StreamHold};
+		for (unsigned a = 0; a < 12; ++a) for (unsigned b = 0; b < 12; ++b) for (unsigned c = 0; c < 12; ++c) {
+			if (!sw("session3", a, b, c)) continue;
+			if (!built) { Tape t(tp); materialise(fs, t); mkdirs("%o/"); std::vector<std::string> paths; for (auto& f : fs) paths.push_back(f.spelled); VolFile::CreateArchive(out, paths); for (size_t i : expected_order(fs)) { names.push_back(fs[i].name); streams.push_back(fs[i].content); } built = true; }
+			VolFile v(out);
+			S se{v, names, streams, [&](size_t i, const std::string& p) { V_CHECK(slurp(p) == streams[i], "session: extraction of member " << i << " wrote other bytes than the input file"); }, {}, {}, {}};
+			se.step(ops[a / 3], a % 3, 0); se.step(ops[b / 3], b % 3, 1); se.step(ops[c / 3], c % 3, 2);
+			for (size_t i = 0; i < 3; ++i) { se.step(S::StreamWhole, i, 0); se.step(S::ExtractGood, i, 0); }
+			se.finish();
+		}
+		if (built) { cleanup_inputs(fs); remove(out.c_str()); }
 	}
 	st.exhaustive = true;
 }
